@@ -345,7 +345,8 @@ func (ex *Exec) mergeStates(sts []*State) *State {
 	out := &State{cells: map[*ssa.Alloc]Val{}, heaps: map[string]string{}, ghosts: map[string]TVal{}}
 	out.pc = vc.define("pc", "Bool", or(pcs...))
 	// cells: only those present in all
-	for a, v0 := range sts[0].cells {
+	for _, a := range sortedAllocs(sts[0].cells) {
+		v0 := sts[0].cells[a]
 		vals := []Val{v0}
 		ok := true
 		for _, s := range sts[1:] {
@@ -394,7 +395,8 @@ func (ex *Exec) mergeStates(sts []*State) *State {
 		}
 		out.next = vc.define("next", "Int", t)
 	}
-	for g, v0 := range sts[0].ghosts {
+	for _, g := range sortedKeys(sts[0].ghosts) {
+		v0 := sts[0].ghosts[g]
 		t := ""
 		ok := true
 		for i := len(sts) - 1; i >= 0; i-- {
